@@ -232,6 +232,7 @@ func discharge(results []*FuncResult, opts solveOpts) {
 	for _, r := range results {
 		for _, o := range r.Obls {
 			jobs = append(jobs, job{r.Gen, o})
+			oblGen[o] = r.Gen
 		}
 	}
 	ch := make(chan job)
@@ -313,3 +314,36 @@ func hasProp(props []string, id string) bool {
 }
 
 func joinNotes(ns []string) string { return strings.Join(ns, "; ") }
+
+// generateLemma: a lemma has no body; its ensures clauses are closed formulas over spec functions.
+func generateLemma(P *Program, con *FuncContract) (res *FuncResult) {
+	res = &FuncResult{Key: con.Key, Mode: con.Mode.String()}
+	g := newGen(P, nil, con, con.Mode)
+	res.Gen = g
+	defer func() {
+		if r := recover(); r != nil {
+			if re, ok := r.(rejectErr); ok {
+				res.Rejected = re.msg
+				return
+			}
+			res.Rejected = fmt.Sprintf("generator panic: %v\n%s", r, debug.Stack())
+		}
+	}()
+	g.lemmaKey = con.Key
+	st := &State{cells: map[interface{}]Val{}, heap: map[string]string{}, reach: "true", top: "0"}
+	var pkg *types.Package
+	if p, ok := P.allPkgs[con.PkgPath]; ok {
+		pkg = p.Types
+	}
+	env := &Env{g: g, st: st, old: st, vars: map[string]CV{}, bound: map[string]CV{}, pkg: pkg}
+	for _, r := range con.Requires {
+		g.assume(st, env.evalBool(r.Expr))
+	}
+	for _, en := range con.Ensures {
+		goal := env.evalBool(en.Expr)
+		o := g.oblige(st, "lemma", con.Key+"/"+en.Label, goal, en, nil)
+		_ = o
+	}
+	res.Obls = g.obls
+	return
+}
